@@ -88,6 +88,14 @@ func NewServer(be Backend) *Server {
 // Serve accepts incoming connections on the Listener l.
 func (s *Server) Serve(l net.Listener) error {
 	s.locker.Lock()
+	select {
+	case <-s.done:
+		// Close or Shutdown has already closed the listeners it knew of:
+		// this one would never be closed and Accept would block forever.
+		s.locker.Unlock()
+		return ErrServerClosed
+	default:
+	}
 	s.listeners = append(s.listeners, l)
 	s.locker.Unlock()
 
@@ -263,15 +271,19 @@ func (s *Server) ListenAndServeTLS() error {
 // Close returns any error returned from closing the server's underlying
 // listener(s).
 func (s *Server) Close() error {
+	// The server is marked closed and the listeners are closed in one step,
+	// so that a concurrent Serve either registers its listener before (and
+	// gets it closed here) or finds the server closed.
+	s.locker.Lock()
 	select {
 	case <-s.done:
+		s.locker.Unlock()
 		return ErrServerClosed
 	default:
 		close(s.done)
 	}
 
 	var err error
-	s.locker.Lock()
 	for _, l := range s.listeners {
 		if lerr := l.Close(); lerr != nil && err == nil {
 			err = lerr
@@ -294,15 +306,16 @@ func (s *Server) Close() error {
 // Shutdown returns the context's error, otherwise it returns any
 // error returned from closing the Server's underlying Listener(s).
 func (s *Server) Shutdown(ctx context.Context) error {
+	s.locker.Lock()
 	select {
 	case <-s.done:
+		s.locker.Unlock()
 		return ErrServerClosed
 	default:
 		close(s.done)
 	}
 
 	var err error
-	s.locker.Lock()
 	for _, l := range s.listeners {
 		if lerr := l.Close(); lerr != nil && err == nil {
 			err = lerr
